@@ -6,6 +6,7 @@ import z3
 from pyvc import sym, autoloops
 from pyvc.arr import SymArray
 from pyvc.harness import Unit
+from pyvc import harness as _h
 from pyvc.sym import SB, SC, SI, SR, check, assume
 from checks import kernels_common as kc
 
@@ -588,6 +589,11 @@ class _U2(_U):
 KERNELS = [("sqeuclidean_distance_2d", 2, False), ("sqeuclidean_distance_3d", 3, False), ("euclidean_distance_2d", 2, True), ("euclidean_distance_3d", 3, True)]
 
 
+
+def _bounded_quick():
+    return native(0)
+
+
 def units():
     us = [Unit("_biot_savart_2d_z", EM + ":_biot_savart_2d_z", run_bs_z, props=["C20", "C09"], timeout=600),
           Unit("_biot_savart_2d_vector", EM + ":_biot_savart_2d_vector", run_bs_vec, props=["C20", "C09"], timeout=600)]
@@ -597,6 +603,7 @@ def units():
     us.append(Unit("Solution.field_at_position[call contract]", "tdgl.solution.solution:Solution.field_at_position", run_field_at_position, props=["C20", "C08"], timeout=300))
     us.append(Unit("biot_savart_2d[call contract]", EM + ":biot_savart_2d", run_biot_savart_wrapper, props=["C20"], timeout=300))
     us.append(Unit("current_loop_vector_potential", EM + ":current_loop_vector_potential", run_loop_potential, props=["C20"], timeout=300))
+    us.append(_h.bounded_unit("fields from currents on real arrays [bounded]", "tdgl.em / Solution.field_at_position (real)", "C20", _bounded_quick, "biot_savart_loop_potential_and_unit_round_trips", timeout=900))
     return us
 
 
